@@ -67,6 +67,11 @@ def regen_facts(log):
     rc2, out2, dt2 = sh([sys.executable, os.path.join(VERIF, "tools", "cfacts.py"), REPO, GEN])
     log.append(("cfacts", rc2, dt2, out2[-4000:]))
     failed += re.findall(r"FACTS-FAIL (\S+)", out2)
+    # no stale generated module may survive a run
+    produced = set(re.findall(r"FACTS-(?:SAME|CHANGED) (\S+)", out + out2)) | set(failed)
+    for f in glob.glob(os.path.join(GEN, "*.lean")):
+        if os.path.basename(f)[:-5] not in produced:
+            os.remove(f)
     return (rc == 0 and rc2 == 0), failed
 
 
